@@ -271,6 +271,18 @@ def build_pair(case):
         (i, j, mix), = blocks_of(var, "MIX")
         mix["items"] = [(s_, fr / f if s_ == k else fr) for s_, fr in mix["items"]]
         info["mode"] = "lastrow"
+    elif fam == "mixsplit":
+        # the fraction of solution k is given in several lines of the MIX block (portions that add up to it)
+        k, parts = case["sol"], case["parts"]
+        (i, j, mix), = blocks_of(var, "MIX")
+        items = []
+        for s_, fr in mix["items"]:
+            if s_ == k:
+                items += [(s_, fr * p) for p in parts]
+            else:
+                items.append((s_, fr))
+        mix["items"] = items
+        info["mode"] = "lastrow"
     elif fam == "selfmix":
         # reference: MIX of solution 1 alone with fraction 1
         for model in (ref, var):
@@ -474,6 +486,8 @@ def fingerprint(case):
         return "self-mix how=%s base=%s" % (case["how"], b)
     if fam == "mixwater":
         return "mix water-mass-vs-fraction base=%s" % b
+    if fam == "mixsplit":
+        return "mix fraction-given-in-several-lines base=%s" % b
     return "%s base=%s" % (fam, b)
 
 
@@ -720,6 +734,9 @@ def mix_cases(name, base, tier):
     for f in ([.5, 2.0, 10.0] if tier == "quick" else [1e-3, .1, .25, .5, 2.0, 3.0, 10.0, 1e3]):
         for k in (1, 2, 3):
             out.append({"base": name, "fam": "mixwater", "sol": k, "f": f})
+    for k in (1, 2, 3):
+        for parts in ([[.5, .5], [.25, .35, .4]] if tier == "quick" else [[.5, .5], [.25, .35, .4], [.9, .1], [.125] * 8]):
+            out.append({"base": name, "fam": "mixsplit", "sol": k, "parts": parts})
     fr2 = [.5, .3] if tier == "quick" else [.01, .1, .25, .3, .5, .75, .9, .99]
     for how in ("copyblock", "copykeyword"):
         for f in fr2:
